@@ -141,7 +141,14 @@ class EqGen:
             a, b = s.render(at), s.render(bt)
             if R.random() < .08: a = call("ㅂ", ["ㅂ", "ㅅ", "ㄴ"])       # NaN only as a top-level operand
             return call("ㄴ", [a, b]), "eq"
-        if k < .45: at = s.val_t(d); return call("ㄴ", [s.render(at), s.render(s.perturb(at)), s.render(at)]), "eq3"
+        if k < .41: at = s.val_t(d); return call("ㄴ", [s.render(at), s.render(s.perturb(at)), s.render(at)]), "eq3"
+        if k < .45:
+            # ONE evaluated value used for two or three operands (x -> x = x): equality is by VALUE, not by identity - a number with a NaN part (a
+            # real NaN, a complex number whose real or imaginary part is NaN) differs from itself even as the same object; every other value equals itself
+            NAN = call("ㅂ", ["ㅂ", "ㅅ", "ㄴ"]); c = R.random()
+            x = NAN if c < .2 else call("ㅂㅅ", [NAN, s.render(s.real_t())]) if c < .4 else call("ㅂㅅ", [s.render(s.real_t()), NAN]) if c < .6 else call("ㅂㅅ", [NAN, NAN]) if c < .65 else s.render(s.atom_t() if R.random() < .6 else s.cplx())
+            ops = " ".join(["ㄱㅇㄱ"] * R.choice([2, 2, 3]))
+            return f"{x} (({ops} ㄴㅎ{E(len(ops.split()))}) ㅎ) ㅎㄴ", "eq-shared-operand"
         if k < .75:
             dt = s.dic_t(d); kt = s.key_t(1)
             if dt[1] and R.random() < .6: kt = R.choice(dt[1])[0]; kt = s.perturb(kt) if R.random() < .5 else kt
@@ -392,6 +399,15 @@ def c16_codecs(r, seed, tier, model_ok):
     for _ in range(N(tier, 300, 5000)):
         w = R.choice([1, 2, 4]); bad_bs = R.choice([b"\xC0\x80", b"\xED\xA0\x80", b"\xF4\x90\x80\x80", b"\xE2\x82", b"\x80", b"\x00\xD8\x00\x00", b"\x00\xDC", b"\x00\x00\x11\x00", b"\x00\xD8\x00", b"\xFF"])
         cases.append(dict(text=f"{bytes_lit(bad_bs)} {codec(0, w, R.choice(['le', None]) if w > 1 else None)} ㅎㄴ", trace=False)); want.append("?"); kinds["utf-malformed"] += 1
+    # strings that arrive from INPUT can hold what no converter accepts: lone surrogates (the host decodes undecodable input bytes into
+    # U+DC80..U+DCFF; any surrogate may be pasted in) - every UTF converter must reject them with the language's exception, in every byte order,
+    # and must still convert the well-formed lines read the same way
+    for line in ["\udc80", "x\udcffy", "\ud800", "a\udbff", "\udc00b", "\udfff", "\ud83d", "\ude00\ud83d", "ok\U0001F600", "한글 abc", "\ud83d\ude00"]:
+        lone = any(0xD800 <= ord(ch) <= 0xDFFF for ch in line)
+        for w in (1, 2, 4):
+            for order in ((None,) if w == 1 else (None, "le", "be")):
+                cases.append(dict(text=f"(ㄹㅎㄱ) ((ㄱㅇㄱ {codec(0, w, order)} ㅎㄴ) ㄱㅅㅎㄴ ㅎ) ㄱㄹㅎㄷ", stdin=[line], trace=False))
+                want.append("E 5,-39" if lone else "V " + fmtb(utf_encode(line, w, order))); kinds["utf-from-input" + ("-lone-surrogate" if lone else "")] += 1
     a = impl_run(cases); bad = []
     for c, o, w in zip(cases, a, want):
         got = res(o)
@@ -468,7 +484,17 @@ def c17_bits(r, seed, tier, model_ok):
         else: y = big(); cases.append(dict(text=f"{E(x)} {E(y)} {f} ㅎㄷ", trace=False)); want.append(str(OPS[k](x, y)))
     a = impl_run(cases)
     bad = [dict(program=c["text"], impl=res(o)[:200], model="two's complement: " + w[:200], which=["bitwise"]) for c, o, w in zip(cases, a, want) if res(o) != "V " + w]
-    r.slice("bitwise_vs_definition", len(cases), len({c["text"] for c in cases}), [cases[0]["text"]], dict(bits="1..200", shifts="-300..300"), "bitwise module vs unbounded two's-complement arithmetic", bad[:40])
+    # shift counts far beyond any machine word: a right shift of anything, and ANY shift of zero, is still defined (0, or -1 for negative operands);
+    # only a left shift of a non-zero operand by such a count has no representable result (the language's arithmetic exception)
+    hc = []; hw = []
+    fsh = call("ㅂ", ["ㅂ", "ㅂㄷ", "ㅈ"])
+    for cnt_ in (2**31, 2**32, 2**62, 2**63, 2**64, 2**100):
+        for x in (0, 1, -1, 5, -2**70, 2**70 + 3):
+            hc.append(dict(text=f"{E(x)} {E(-cnt_)} {fsh} ㅎㄷ", trace=False)); hw.append("V " + str(-1 if x < 0 else 0))
+            if x == 0 or cnt_ >= 2**62: hc.append(dict(text=f"{E(x)} {E(cnt_)} {fsh} ㅎㄷ", trace=False, tlimit=10)); hw.append("V 0" if x == 0 else "E 5,-54")
+    ha = impl_run(hc)
+    bad += [dict(program=c["text"], impl=res(o)[:200], model="infinite two's complement: " + w, which=["bitwise-huge-count"]) for c, o, w in zip(hc, ha, hw) if w is not None and res(o).split(" @")[0] != w]
+    r.slice("bitwise_vs_definition", len(cases) + len(hc), len({c["text"] for c in cases}), [cases[0]["text"]], dict(bits="1..200", shifts="-300..300"), "bitwise module vs unbounded two's-complement arithmetic", bad[:40])
     if model_ok:
         b = model_run(cases); dist, bad2 = compare(cases, a, b, fields=("res",))
         r.slice("bitwise_vs_model", len(cases), len({c["text"] for c in cases}), [cases[1]["text"]], dict(outcomes=dict(dist)), "same programs vs the extracted model", bad2)
@@ -700,6 +726,20 @@ def c02_callables(r, seed, tier, model_ok):
         add(f"{x} {bl} ㅎㄴ", "E 5,-39", "boolean-arity"); add(f"{x} {y} {x} {bl} ㅎㄹ", "E 5,-39", "boolean-arity")
         for callee in (call("ㅁㄹ", [E(1), E(2)]), str_lit("ab"), cx):
             add(f"(ㄴ ㅁㅈㅎㄴ) {callee} ㅎㄴ", "E 5,0", "index-not-integer"); add(f"ㄱ ㄴ {callee} ㅎㄷ", "E 5,-39", "index-arity")
+    # the same rules for sequences that come OUT of an operation rather than from a constructor: the list a spread function (ㅂㅂ) builds from its
+    # arguments, results of concatenation / slicing / map / filter / split, a list taken out of a list or returned by a function, a pipe stage
+    for _ in range(N(tier, 25, 250)):
+        ln = R.randrange(1, 5); xs = [R.randrange(-9, 10) for _ in range(ln)]; els = " ".join(E(x) for x in xs); lit = call("ㅁㄹ", [E(x) for x in xs])
+        prod = {"spread-argument-list": lambda i: f"{els} (({E(i)} ㄱㅇㄱ ㅎㄴ ㅎ) ㅂㅂㅎㄴ) ㅎ{E(ln)}",
+                "spread-list-returned": lambda i: f"{E(i)} ({els} ((ㄱㅇㄱ ㅎ) ㅂㅂㅎㄴ) ㅎ{E(ln)}) ㅎㄴ",
+                "spread-list-stored": lambda i: f"{E(i)} (ㄱ (({els} ((ㄱㅇㄱ ㅎ) ㅂㅂㅎㄴ) ㅎ{E(ln)}) ㄴ ㅁㄹㅎㄷ) ㅎㄴ) ㅎㄴ",
+                "spread-list-as-pipe-stage": lambda i: f"{E(i)} (({els} ((ㄱㅇㄱ ㅎ) ㅂㅂㅎㄴ) ㅎ{E(ln)}) (ㄱㅇㄱ ㅎ) ㄴㄱㅎㄷ) ㅎㄴ",
+                "concatenation": lambda i: f"{E(i)} ({lit} (ㅁㄹㅎㄱ) ㄷㅎㄷ) ㅎㄴ", "slice": lambda i: f"{E(i)} ({lit} ㄱ ㅂㅈㅎㄷ) ㅎㄴ",
+                "map": lambda i: f"{E(i)} ({lit} (ㄱㅇㄱ ㅎ) ㅁㄷㅎㄷ) ㅎㄴ", "filter": lambda i: f"{E(i)} ({lit} (ㅈㅈㅎㄱ ㅎ) ㅅㅂㅎㄷ) ㅎㄴ",
+                "returned-by-function": lambda i: f"{E(i)} ({lit} (ㄱㅇㄱ ㅎ) ㅎㄴ) ㅎㄴ", "element-of-list": lambda i: f"{E(i)} (ㄱ ({lit} ㅁㄹㅎㄴ) ㅎㄴ) ㅎㄴ",
+                "collect-then-spread": lambda i: f"{lit} ((({E(i)} ㄱㅇㄱ ㅎㄴ ㅎ) ㅂㅂㅎㄴ) ㅁㅂㅎㄴ) ㅎㄴ"}
+        for nm, f in prod.items():
+            for i in range(-ln - 2, ln + 2): add(f(i), f"V {xs[i]}" if -ln <= i < ln else "E 5,-5", "called-" + nm)
     # argument references: a function given k arguments, position p from -k-2 .. k+1 (literal and computed), the reference standing as the body,
     # as an argument of a user function / Boolean / built-in, inside an inner function (outer arguments), and used twice by the callee
     for k in range(0, 4):
